@@ -22,6 +22,7 @@ import TickitModel.Core.FailStop
 import TickitModel.Core.Contract
 import TickitModel.Core.Regex
 import TickitModel.Core.NestedInt
+import TickitModel.Core.MasterLoop
 
 open Lean Tickit
 
@@ -313,6 +314,60 @@ def opMaster (j : Json) : Json :=
           ("owed", outStrs s'.owed)] :: acc)
   Json.arr (go acts {} []).toArray
 
+/-! ### master run loop (flag protocol): trace acceptor
+
+The observable events of the real `_do_tick` loop are `add_wakeup` calls (component, resulting entry),
+tick starts (roots, time) and tick ends.  The hidden moves of the model (`newTaskRuns`, `sleepExpires`,
+`step`s that neither enter nor leave a tick) are closed over; the trace is accepted iff after every
+observable event at least one model state remains. -/
+
+def loopSameSet (a b : List Comp) : Bool := a.all (b.contains ·) && b.all (a.contains ·)
+
+def loopHidden (fixed : Bool) (s : MLoopSt) : List MLoopSt :=
+  let a := [MLoopAct.newTaskRuns, MLoopAct.sleepExpires].filterMap (s.step fixed)
+  let b : List MLoopSt := match s.pc with
+    | .ticking _ _ => []
+    | _ => match s.step fixed .step with
+      | some s' => (match s'.pc with | .ticking _ _ => [] | _ => [s'])
+      | none => []
+  a ++ b
+
+def loopClose (fixed : Bool) : Nat → List MLoopSt → List MLoopSt
+  | 0, ss => ss
+  | fuel + 1, ss =>
+    let next := (ss ++ ss.flatMap (loopHidden fixed)).eraseDups
+    if next.length == ss.length then ss else loopClose fixed fuel next
+
+def opMLoop (j : Json) : Json :=
+  let fixed := match jfield j "fixed" with | .bool b => b | _ => true
+  let evs := jarr (jfield j "events")
+  let rec go (evs : List Json) (ss : List MLoopSt) (i : Nat) : Json :=
+    let ss := loopClose fixed 64 ss
+    match evs with
+    | [] => Json.mkObj [("accepted", true), ("states", toJson ss.length), ("dead", toJson (ss.any (fun s => s.pc == .dead)))]
+    | e :: rest =>
+      let next : List MLoopSt := match jstr (jfield e "e") with
+        | "add" => ss.filterMap (fun s => s.step fixed (.addWakeup (jstr (jfield e "c")) (jint (jfield e "t"))))
+        | "tick" =>
+          let cs := (jarr (jfield e "cs")).map jstr
+          let w := jint (jfield e "w")
+          ss.filterMap (fun s => match s.pc with
+            | .sleptNotResumed _ _ => (match s.step fixed .step with
+              | some s' => (match s'.pc with
+                | .ticking cs' w' => if loopSameSet cs cs' && w' == w then some s' else none
+                | _ => none)
+              | none => none)
+            | _ => none)
+        | "end" => ss.filterMap (fun s => match s.pc with
+            | .ticking _ _ => s.step fixed .step
+            | _ => none)
+        | _ => []
+      if next.isEmpty then
+        Json.mkObj [("accepted", false), ("at", toJson i), ("states", toJson ss.length),
+          ("pcs", Json.arr ((ss.map (fun s => Json.str (reprStr s.pc))).toArray))]
+      else go rest next.eraseDups (i + 1)
+  go evs [({} : MLoopSt)] 0
+
 instance : Inhabited Tree := ⟨.dev ""⟩
 
 partial def jTree (j : Json) : Tree :=
@@ -392,6 +447,7 @@ def handleLine (line : String) : String :=
       | "regex" => opRegex j
       | "nested" => opNested j
       | "master" => opMaster j
+      | "mloop" => opMLoop j
       | "failstop" => opFailStop j
       | "contract" => opContract j
       | "ping" => Json.str "pong"
